@@ -268,6 +268,37 @@ theorem aug_decode_any_valid {Y : Type} (skipX : List Bool → List Cell → Out
   rw [mapInnerAug_toCell skipX C pay xpay hskip n hn t hdec n [] (n + 1) hv (by simp) (Nat.lt_succ_self n)]
   simp [hsk]
 
+/-! ## Cell capacity -/
+
+/-- the size part of `Fits` is monotone in the key width -/
+theorem size_fits_mono (n N b : Nat) (hn : n ≤ N) (h : b + N + 2 + minBitsRequired N ≤ 1023) :
+    b + n + 2 + minBitsRequired n ≤ 1023 := by
+  have := minBits_mono hn
+  omega
+
+/-- Marshal never overflows a cell for the key types the library ships: with any key width up to 512 bits (Bits512 is the
+widest) every value of at most 499 bits and 4 refs fits; with integer keys (≤ 64 bits) values up to 950 bits fit; with
+256-bit keys up to 756. (1023 = 2 + bitlength n + n + value bits is attained, so these are the exact limits.) -/
+theorem encode_never_overflows (C : Codec V) (pay : V → List Bool × List Cell) (n : Nat) (lt : Key → Key → Bool)
+    (ops : List (Key × V)) (hnd : (keysOf ops).Nodup) (hw : ∀ kv ∈ ops, kv.1.length = n)
+    (hval : ∀ kv ∈ ops, C.enc kv.2 = .ok (pay kv.2) ∧ (pay kv.2).2.length ≤ 4 ∧ DecodesValue C pay kv.2 ∧
+      ((n ≤ 512 ∧ (pay kv.2).1.length ≤ 499) ∨ (n ≤ 256 ∧ (pay kv.2).1.length ≤ 756) ∨
+       (n ≤ 64 ∧ (pay kv.2).1.length ≤ 950))) :
+    ∃ c, marshalE C n (buildPut lt ops) = .ok c := by
+  have hfit : ∀ kv ∈ ops, Fits C pay n kv.2 := by
+    intro kv hkv
+    obtain ⟨he, hr, hd, hs⟩ := hval kv hkv
+    refine ⟨he, ?_, hr, hd⟩
+    rcases hs with ⟨h1, h2⟩ | ⟨h1, h2⟩ | ⟨h1, h2⟩
+    · exact size_fits_mono n 512 _ h1 (by have : minBitsRequired 512 = 10 := by decide
+                                          omega)
+    · exact size_fits_mono n 256 _ h1 (by have : minBitsRequired 256 = 9 := by decide
+                                          omega)
+    · exact size_fits_mono n 64 _ h1 (by have : minBitsRequired 64 = 7 := by decide
+                                         omega)
+  obtain ⟨c, h, _⟩ := build_encode_decode C pay n lt ops hnd hw hfit
+  exact ⟨c, h⟩
+
 /-! ## Dictionaries inside Merkle proofs (pruned subtrees) -/
 
 /-- Decoding a valid dictionary in which some subtrees are replaced by pruned-branch cells (what `mapInner` skips; a
